@@ -168,6 +168,15 @@ func runC06(c *kernel.Ctx) {
 			m := message.New(w.ssid(contract, lv), []byte(model.Join(lv)), payload)
 			m.TTL = ttl
 			id := append(message.ID(nil), m.ID...)
+			if t.Chance(1, 5) {
+				// the store call happens some time after the message was stamped (a busy broker, a message
+				// handed over late): its expiry still counts from its own timestamp
+				late := time.Duration(t.Range(2, 40)) * time.Second
+				time.Sleep(late)
+				c.Stats.SimTime += late
+				c.Fault("store-later-than-timestamp")
+				c.Logf("store delayed by %v", late)
+			}
 			if err := w.st.Store(m); err != nil {
 				c.Failf("missing", "store-error", "Store failed: %v", err)
 			}
